@@ -587,6 +587,7 @@ const expireBy = 4300000000 // seconds: more than any uint32 TTL
 // world: one Cache and everything the driver holds.
 type world struct {
 	id    string
+	viol  string
 	lazy  bool
 	c     *cache.Cache
 	held  []*dns.Msg
@@ -657,7 +658,10 @@ func (w *world) exec(o hop, expired map[uint32]bool) {
 			<-gate
 			bgRan = true
 			if qc.R() != nil {
-				fail(w.id, "lazy update entered with a response")
+				// the background update shares (or was handed) the foreground's response: not a state the
+				// judge's vocabulary has; reported as a harness-level observation the property excludes
+				w.viol = "lazy update's context entered the rest of the chain already holding a response (it must start from a clean copy of the query)"
+				qc.SetResponse(nil)
 			}
 			leave(qc, o.lz)
 			return nil
@@ -761,6 +765,10 @@ func (w *world) emit(out *hx.Writer, kind string) {
 		}
 	}
 	w.c.Close()
+	if w.viol != "" {
+		out.Violation(w.id, w.viol, map[string]any{"kind": kind, "lazy": w.lazy, "hops": w.hops})
+		return
+	}
 	out.Emit(kind, hx.Case{
 		ID:  w.id,
 		Coq: hx.App("Case", hx.Bool(w.lazy), hx.List(w.hops), hx.NList(finals), hx.List(items)),
